@@ -1,12 +1,34 @@
+import os
 import vlib as V
 
 ID = "C10"
+
+
+def generate_grammar():
+    """Regenerate lean/FV/Generated/Grammar.lean from /repo's grammar.peg (harness/pegx, stdlib only).
+    The file is rewritten only when its content changes (so lake rebuilds the theorems only then)."""
+    os.makedirs(V.BUILD, exist_ok=True)
+    src = os.path.join(V.VERIF, "harness", "pegx")
+    binp = os.path.join(V.BUILD, "pegx")
+    tmp = binp + ".%d" % os.getpid()
+    rc, out, err = V.run(["go", "build", "-o", tmp, "."], cwd=src, env=V.GOENV, timeout=600)
+    if rc != 0:
+        return False, "grammar translator does not build: " + (out + err)[-800:]
+    os.replace(tmp, binp)
+    rc, out, err = V.run([binp, os.path.join(V.REPO, "compiler", "parser", "grammar.peg"),
+                          os.path.join(V.LEAN, "FV", "Generated", "Grammar.lean")], timeout=120)
+    if rc != 0:
+        return False, "grammar:translate " + (out + err).strip()[-800:]
+    return True, ""
+
+
 PROP = {
     "props_module": "FV.Props.C10",
+    "generate": [generate_grammar],
     "builders": {"cc": V.build_cc},
-    "suites": [("cc", "c10", {"quick": 600, "thorough": 12000})],
+    "suites": [("cc", "c10", {"quick": 1500, "thorough": 40000})],
     "suite_kind": {"c10": "cc"},
-    "rule": "stage 1",
+    "rule": "stage 3",
     "trusted": [],
     "level_text": "under construction",
     "level_note": "under construction",
